@@ -127,6 +127,21 @@ fn gen_lookat(r: &mut Rng) -> Vec<f64> {
     v
 }
 
+/// approx_eq(a, b, eps): equal arguments, a distance of exactly eps, and zero / negative / tiny tolerances are the cases that
+/// tell `|a - b| < eps` from its neighbours (`<=`, a short-cut for a == b, a relative test)
+fn gen_approx(r: &mut Rng) -> Vec<f64> {
+    let a = match r.below(4) { 0 => r.special(), _ => r.cad() };
+    let eps = match r.below(6) { 0 => 0.0, 1 => *r.pick(&[-0.0, -1.0, -1e-9, f64::MIN_POSITIVE, 5e-324]), 2 => *r.pick(&[1e-12, 1e-9, 1e-6, 1e-3]), _ => r.cad().abs() };
+    let b = match r.below(6) {
+        0 | 1 => a,                                                        // identical
+        2 => a + eps,                                                      // at (or, after rounding, next to) the boundary
+        3 => a - eps,
+        4 => a + eps * *r.pick(&[0.5, 0.999, 1.001, 2.0]),
+        _ => r.cad(),
+    };
+    vec![a, b, eps]
+}
+
 pub fn emit(seed: u64, n: usize, lo: i64, hi: i64) {
     let mut r = Rng::new(seed);
     let ops: Vec<&(i64, &str, &str)> = OPS.iter().filter(|o| o.0 >= lo && o.0 <= hi).collect();
@@ -137,7 +152,7 @@ pub fn emit(seed: u64, n: usize, lo: i64, hi: i64) {
             if count >= n { break; }
             let special = round % 5 == 4;
             let tiny = round % 5 == 2;
-            let args = if o.0 == 109 || o.0 == 116 { gen_lookat(&mut r) } else { gen_args_mode(&mut r, o.2, special, tiny) };
+            let args = if o.0 == 109 || o.0 == 116 { gen_lookat(&mut r) } else if o.0 == 146 && !special { gen_approx(&mut r) } else { gen_args_mode(&mut r, o.2, special, tiny) };
             clear_trig();
             let a2 = args.clone();
             let op = o.0;
